@@ -15,11 +15,13 @@ pub mod c17;
 pub mod c01;
 pub mod c03;
 pub mod c05;
+pub mod c08;
 pub mod c09;
 pub mod c10;
 pub mod parse;
 pub mod c04;
 pub mod c20;
+pub mod c11;
 pub mod c12;
 pub mod c13;
 pub mod c14;
@@ -32,11 +34,13 @@ pub fn dispatch(ctx: &mut Ctx) {
         "C01" => c01::check(ctx),
         "C03" => c03::check(ctx),
         "C05" => c05::check(ctx),
+        "C08" => c08::check(ctx),
         "C09" => c09::check(ctx),
         "C10" => c10::check(ctx),
         "PARSE" => parse::check(ctx),
         "C04" => c04::check(ctx),
         "C20" => c20::check(ctx),
+        "C11" => c11::check(ctx),
         "C12" => c12::check(ctx),
         "C13" => c13::check(ctx),
         "C14" => c14::check(ctx),
